@@ -1,7 +1,7 @@
 CONSTANTS
   Stoppers = {"stopws", "monitor", "close"}
-  StartRule = "together"
-  CloseRule = "always"
+  StartRule = "flagfirst"
+  CloseRule = "first"
 SPECIFICATION Spec
 INVARIANT NoPanic
 PROPERTY AllReturn
